@@ -15,6 +15,13 @@
 //     a variable holding one may be assigned another; every observation
 //     (Encoded with several encoders, Equals, Equivalent as map key, lookups,
 //     iteration, merging) must agree with what the location holds NOW.
+//   - key_filters   the library's own predicates (NewAllowKeysFilter /
+//     NewDenyKeysFilter) built from key slices the caller lends and goes on
+//     using; every filter keeps splitting by the keys given at construction
+//     (keyfilters_test.go)
+//   - concurrent_twins  2..8 goroutines each running the sequential property
+//     on their own data at the same moment; sequential oracle per goroutine
+//     (concurrent_test.go)
 //
 // Readings of the statement chosen where it is ambiguous:
 //   - pairs of sets equal under exactly one of {bitwise, Go ==} are not
